@@ -3,6 +3,7 @@ package main
 import (
 	"bytes"
 	"strings"
+	"sync/atomic"
 	"unsafe"
 
 	"free5gclib/aper"
@@ -210,7 +211,8 @@ func decodeTok(ue *tglib.RanUeContext, sht uint8, pkg []byte) string {
 	return tok
 }
 
-var dlTransportSeq int
+// (atomic: the concurrent scenarios of C20 build their messages with this function from several goroutines)
+var dlTransportSeq int64
 
 func dlTransport(pkg []byte, withNas bool) *ngapType.DownlinkNASTransport {
 	m := &ngapType.DownlinkNASTransport{}
@@ -226,14 +228,14 @@ func dlTransport(pkg []byte, withNas bool) *ngapType.DownlinkNASTransport {
 	m.ProtocolIEs.List = append(m.ProtocolIEs.List, ie)
 	// one message in three carries the optional IEs that TS 38.413 9.2.5.2 places BEFORE the NAS-PDU (Old AMF, RAN Paging
 	// Priority): the NAS-PDU is found by its IE id, not by its position
-	dlTransportSeq++
-	if dlTransportSeq%3 != 0 {
+	seq := atomic.AddInt64(&dlTransportSeq, 1)
+	if seq%3 != 0 {
 		ie = ngapType.DownlinkNASTransportIEs{}
 		ie.Id.Value = ngapType.ProtocolIEIDOldAMF
 		ie.Value.Present = ngapType.DownlinkNASTransportIEsPresentOldAMF
 		ie.Value.OldAMF = &ngapType.AMFName{Value: "amf-old"}
 		m.ProtocolIEs.List = append(m.ProtocolIEs.List, ie)
-		if dlTransportSeq%3 == 2 {
+		if seq%3 == 2 {
 			ie = ngapType.DownlinkNASTransportIEs{}
 			ie.Id.Value = ngapType.ProtocolIEIDRANPagingPriority
 			ie.Value.Present = ngapType.DownlinkNASTransportIEsPresentRANPagingPriority
